@@ -281,6 +281,136 @@ fn corpus(ctx: &mut Ctx) {
     cp(ctx, "pc", "02"); cp(ctx, "pc", "0000"); cp(ctx, "bc", "0200000000");
 }
 
+// ---------------------------------------------------------------- Policies through serde_json (visit_map)
+const FLAG_NAMES: [&str; 6] = ["Tip", "WitnessLimit", "Maturity", "MaxFee", "Expiration", "Owner"];
+
+/// a `Policies` with arbitrary (also unknown) bits: only reachable by deserialisation (`from_bits_retain`)
+fn policies_any_bits(bits: u32, vals: &[u64; 6]) -> Option<Policies> {
+    let mut b = vec![]; varint(bits as u64, &mut b);
+    if bits & 0x30 == 0 { for v in &vals[..4] { varint(*v, &mut b); } }
+    else { let set: Vec<u64> = (0..6).filter(|i| bits & (1 << i) != 0).map(|i| vals[i]).collect(); varint(set.len() as u64, &mut b); for v in set { varint(v, &mut b); } }
+    postcard::from_bytes::<Policies>(&b).ok()
+}
+
+fn json_err_class(msg: &str) -> &'static str {
+    if msg.contains("duplicate field `bits`") { "duplicate-bits" } else if msg.contains("duplicate field `values`") { "duplicate-values" }
+    else if msg.contains("bits field should be set before values") { "bits-before-values" }
+    else if msg.contains("missing field `bits`") { "missing-bits" } else if msg.contains("missing field `values`") { "missing-values" }
+    else if msg.contains("isn't synchronized") { "not-synchronized" } else { "invalid" }
+}
+
+/// one JSON object given field by field: (key, kind, payload) with kind s = string, n = number, a = array of
+/// element tokens (decimal | neg | flt | str | null), o = other value; rendered as JSON text for serde_json
+fn polj(ctx: &mut Ctx, fields: &[(String, char, String)]) {
+    let mut text = String::from("{");
+    let mut toks = vec![];
+    for (i, (k, kind, p)) in fields.iter().enumerate() {
+        if i > 0 { text.push(','); }
+        text.push_str(&serde_json::to_string(k).unwrap()); text.push(':');
+        match kind {
+            's' => { text.push_str(&serde_json::to_string(p).unwrap()); toks.push(format!("{k}:s:{}", hex(p.as_bytes()))); }
+            'n' => { text.push_str(p); toks.push(format!("{k}:n:{p}")); }
+            'a' => { let els: Vec<&str> = if p.is_empty() { vec![] } else { p.split(',').collect() };
+                     text.push('['); text.push_str(&els.iter().map(|e| match *e { "neg" => "-1".to_string(), "flt" => "1.5".to_string(), "str" => "\"7\"".to_string(), "null" => "null".to_string(), d => d.to_string() }).collect::<Vec<_>>().join(",")); text.push(']');
+                     toks.push(format!("{k}:a:{}", if p.is_empty() { "-" } else { p })); }
+            _ => { text.push_str(match p.as_str() { "true" => "true", "obj" => "{\"a\":[1,{\"b\":null}]}", _ => "null" }); toks.push(format!("{k}:o:{p}")); }
+        }
+    }
+    text.push('}');
+    let op = format!("polj {}", toks.join(" "));
+    let r = ctx.guard(|| serde_json::from_str::<Policies>(&text));
+    let out = match r {
+        Ok(Ok(p)) => {
+            // accepted values are fixed points of the JSON round trip
+            let again = serde_json::to_string(&p).ok().and_then(|t| serde_json::from_str::<Policies>(&t).ok());
+            if again != Some(p) { ctx.oracle_fail("policies-json-accepted-value-not-fixed-point", &op, &text); }
+            ctx.count("polj.ok");
+            // the raw array is private: the value is reported as the binary tree it serialises to (bits + layout)
+            format!("ok {}", p.serialize(Rec).unwrap())
+        }
+        Ok(Err(e)) => { let c = json_err_class(&e.to_string()); ctx.count(&format!("polj.err.{c}")); format!("err {c}") }
+        Err(pmsg) => { ctx.oracle_fail("policies-json-decode-panic", &op, &pmsg); "panic".to_string() }
+    };
+    ctx.emit(&op, &out);
+}
+
+fn bits_text(rng: &mut Rng, bits: u32) -> String {
+    let names: Vec<String> = (0..6).filter(|i| bits & (1 << i) != 0).map(|i| FLAG_NAMES[i].to_string()).collect();
+    let rem = bits & !63;
+    let mut parts = names.clone();
+    if rem != 0 { parts.push(format!("0x{rem:x}")); }
+    match rng.below(14) {
+        0..=4 => parts.join(" | "),                                          // what bitflags writes
+        5 => parts.join("|"),
+        6 => format!("  {} ", parts.join("  |\t")),
+        7 => { parts.reverse(); parts.join(" | ") }
+        8 => { if let Some(f) = parts.first().cloned() { parts.push(f); } parts.join(" | ") }        // a flag twice
+        9 => format!("0x{bits:x}"),                                            // everything as hex
+        10 => format!("0x{}{bits:X}", if rng.chance(1, 2) { "+" } else { "000" }),
+        11 => format!("{} | ", parts.join(" | ")),                             // empty flag
+        12 => (*rng.pick(&["0x", "0X3", "0x100000000", "0xffffffff", "0x-1", "0x+", "tip", "Tip | Unknown", "", "   ", "|", "0x1 | 0x2", "0x 1", "Tip Owner", "0x1_0"])).to_string(),
+        _ => parts.join(" | ").to_lowercase(),
+    }
+}
+
+fn json_cases(ctx: &mut Ctx) {
+    // serialise: all 64 masks (public API) and values with unknown bits (deserialised), text compared with the model's
+    for round in 0..ctx.n(3, 20) {
+        for m in 0u32..64 {
+            let bits = if round == 0 { m } else { m | ((ctx.rng.word() as u32) & !63 & if ctx.rng.chance(1, 2) { 0xffff_ffc0 } else { 0x0000_0fc0 }) };
+            let mut vals = [0u64; 6]; for v in vals.iter_mut() { *v = ctx.rng.word(); }
+            let p = if round == 0 { Some(policies_from(bits, &vals)) } else { policies_any_bits(bits, &vals) };
+            let Some(p) = p else { ctx.oracle_fail("policies-postcard-rejects-unknown-bits", &format!("{bits}"), ""); continue };
+            let canon: Vec<u64> = (0..6).map(|i| if bits & (1 << i) != 0 { vals[i] } else if bits & 0x30 == 0 && i < 4 && round != 0 { vals[i] } else { 0 }).collect();
+            let op = format!("poljs {bits} {}", canon.iter().map(|v| v.to_string()).collect::<Vec<_>>().join(" "));
+            match ctx.guard(|| serde_json::to_string(&p)) {
+                Ok(Ok(t)) => {
+                    match serde_json::from_str::<Policies>(&t) { Ok(q) if q == p => {}, other => ctx.oracle_fail("Policies-json-roundtrip-differs", &op, &format!("{t} -> {other:?}")) }
+                    ctx.count(if bits & !63 != 0 { "poljs.unknown-bits" } else { "poljs.mask" });
+                    ctx.emit(&op, &t);
+                }
+                Ok(Err(e)) => ctx.oracle_fail("Policies-json-encode-fails", &op, &e.to_string()),
+                Err(pm) => ctx.oracle_fail("Policies-json-encode-panic", &op, &pm),
+            }
+        }
+    }
+    // deserialise: well-formed and malformed objects
+    let s = |x: &str| x.to_string();
+    // literals: reordered, duplicate, missing, unknown fields, wrong types
+    polj(ctx, &[(s("values"), 'a', s("1,2,3,4")), (s("bits"), 's', s("Tip"))]);
+    polj(ctx, &[(s("bits"), 's', s("Tip")), (s("values"), 'a', s("1,2,3,4"))]);
+    polj(ctx, &[(s("bits"), 's', s("Tip")), (s("bits"), 's', s("Tip")), (s("values"), 'a', s("1,2,3,4"))]);
+    polj(ctx, &[(s("bits"), 's', s("Tip")), (s("values"), 'a', s("1,2,3,4")), (s("values"), 'a', s("1,2,3,4"))]);
+    polj(ctx, &[(s("bits"), 's', s("Tip"))]); polj(ctx, &[(s("values"), 'a', s("1,2,3,4"))]); polj(ctx, &[]);
+    polj(ctx, &[(s("x"), 'o', s("obj")), (s("bits"), 's', s("Owner")), (s("y"), 'n', s("3")), (s("values"), 'a', s("9")), (s("z"), 'a', s("1,str"))]);
+    polj(ctx, &[(s("bits"), 'n', s("1")), (s("values"), 'a', s("1,2,3,4"))]); polj(ctx, &[(s("bits"), 's', s("Tip")), (s("values"), 'n', s("1"))]);
+    polj(ctx, &[(s("bits"), 's', s("Owner")), (s("values"), 'a', s(""))]); polj(ctx, &[(s("bits"), 's', s("Owner")), (s("values"), 'a', s("1,2"))]);
+    polj(ctx, &[(s("bits"), 's', s("Tip")), (s("values"), 'a', s("1,2,3"))]); polj(ctx, &[(s("bits"), 's', s("Tip")), (s("values"), 'a', s("1,2,3,4,5"))]);
+    polj(ctx, &[(s("bits"), 's', s("Tip")), (s("values"), 'a', s("1,2,3,18446744073709551615"))]); polj(ctx, &[(s("bits"), 's', s("Tip")), (s("values"), 'a', s("1,2,3,18446744073709551616"))]);
+    polj(ctx, &[(s("bits"), 's', s("0x40")), (s("values"), 'a', s("0,0,0,0"))]); polj(ctx, &[(s("bits"), 's', s("")), (s("values"), 'a', s("0,0,0,0"))]);
+    for _ in 0..ctx.n(4000, 80000) {
+        let bits: u32 = if ctx.rng.chance(3, 4) { ctx.rng.below(64) as u32 } else { (ctx.rng.word() as u32) & if ctx.rng.chance(1, 2) { 0xfff } else { u32::MAX } };
+        let text = bits_text(&mut ctx.rng, bits);
+        let nset = (bits & 63).count_ones() as u64;
+        let n = match ctx.rng.below(8) { 0..=3 => if bits & 0x30 == 0 { 4 } else { nset }, 4 => 4, 5 => nset, _ => ctx.rng.below(8) };
+        let mut els: Vec<String> = (0..n).map(|_| ctx.rng.word().to_string()).collect();
+        if ctx.rng.chance(1, 12) && !els.is_empty() { let i = ctx.rng.below(els.len() as u64) as usize; els[i] = (*ctx.rng.pick(&["neg", "flt", "str", "null", "18446744073709551616", "0"])).to_string(); }
+        let fb = (s("bits"), 's', text); let fv = (s("values"), 'a', els.join(","));
+        let unk = (format!("u{}", ctx.rng.below(3)), *ctx.rng.pick(&['o', 'n', 'a', 's']), s("1"));
+        let unk = (unk.0, unk.1, if unk.1 == 'o' { s("obj") } else { unk.2 });
+        let fields: Vec<(String, char, String)> = match ctx.rng.below(12) {
+            0..=5 => vec![fb, fv],
+            6 => vec![fv, fb],
+            7 => vec![unk.clone(), fb, unk, fv],
+            8 => vec![fb.clone(), fv, fb],
+            9 => vec![fb, fv.clone(), fv],
+            10 => if ctx.rng.chance(1, 2) { vec![fb] } else { vec![fv] },
+            _ => vec![fb, (s("values"), *ctx.rng.pick(&['n', 's', 'o']), s("1"))],
+        };
+        polj(ctx, &fields);
+    }
+}
+
 fn policies_from(bits: u32, vals: &[u64; 6]) -> Policies {
     let mut p = Policies::new();
     let tys = [PolicyType::Tip, PolicyType::WitnessLimit, PolicyType::Maturity, PolicyType::MaxFee, PolicyType::Expiration, PolicyType::Owner];
@@ -352,6 +482,7 @@ pub fn run(ctx: &mut Ctx) {
         let mut r = ctx.rng.clone(); ctx.rng.next();
         if let Some(x) = gen::<fuel_tx::Output>(&mut r) { case(ctx, "Output", &x); }
     }
+    json_cases(ctx);
     let _ = write!(String::new(), "");
 }
 
